@@ -135,3 +135,10 @@ pub proof fn lemma_exp_fin_list(e: Exp)
         e matches Exp::And(es) ==> (forall|k: int| 0 <= k < es@.len() ==> exp_fin(#[trigger] es@[k])),
         e matches Exp::Or(es) ==> (forall|k: int| 0 <= k < es@.len() ==> exp_fin(#[trigger] es@[k])),
 { reveal_with_fuel(exp_fin, 1); }
+pub proof fn lemma_exp_fin_list_intro(e: Exp)
+    requires
+        e matches Exp::Min(es) ==> (forall|k: int| 0 <= k < es@.len() ==> exp_fin(#[trigger] es@[k])),
+        e matches Exp::Max(es) ==> (forall|k: int| 0 <= k < es@.len() ==> exp_fin(#[trigger] es@[k])),
+        e is Min || e is Max,
+    ensures exp_fin(e),
+{ reveal_with_fuel(exp_fin, 1); }
